@@ -62,6 +62,12 @@ func (tr *fnTrans) queryText2(o *Obligation, wantModel bool, relaxed bool) strin
 	if err != nil {
 		sb.WriteString("; prelude error: " + err.Error() + "\n")
 	}
+	declared := map[string]bool{}
+	for _, m := range mods {
+		for d := range v.prelude.Mods[m].Declares {
+			declared[d] = true
+		}
+	}
 	// module texts, with "..." string literals replaced by declared constants
 	var modText strings.Builder
 	for _, m := range mods {
@@ -115,6 +121,9 @@ func (tr *fnTrans) queryText2(o *Obligation, wantModel bool, relaxed bool) strin
 	}
 	sb.WriteString(modText.String())
 	for _, it := range tr.items[:o.Pos] {
+		if it.needs != "" && !declared[it.needs] {
+			continue
+		}
 		if relaxed && it.isHyp && (strings.Contains(it.text, "(forall ") || strings.Contains(it.text, "(exists ")) {
 			continue
 		}
